@@ -200,7 +200,16 @@ def run(ctx, crate):
     if cfg_t is not None and args_v is not None and parsed:
         g = parsed[0].guard
         want = [["is(%s; Some)" % show(("proj", args_v, ("f", 1, "toml")))]]
-        obs.append(Ob("R14.select", on.path, "the configuration file is read iff --toml is given", g == want, expected=S.guard_str(want), found=S.guard_str(g)))
+        ok_g = g == want
+        if not ok_g and g is not None and len(g) == 1 and set(want[0]) <= set(g[0]):
+            # further conditions of the form "the read / the parse before it succeeded" are no restriction when the failure does not come back from Opts::new
+            # (a message and process::exit(1) where an expect panicked): every normal run with --toml still reads and parses the file
+            extra = [a for a in g[0] if a not in want[0]]
+            rets = [bb for bb in on.reach if on.blocks[bb]["term"]["k"] == "return"]
+            rg = [c for bb in rets for c in (S.block_guard(on, bb) or [["?"]])]
+            ok_g = all(a.startswith("is(") and a.endswith(("; Ok)", "; Some)")) and ("fs::read_to_string(" in a or "from_str(" in a) and
+                       not any(("!" + a) in c or "?" in c for c in rg) for a in extra)
+        obs.append(Ob("R14.select", on.path, "the configuration file is read iff --toml is given", ok_g, expected=S.guard_str(want), found=S.guard_str(g)))
     # fields of the config all read
     allterms = set()
     for s in sites:
